@@ -48,6 +48,9 @@ def pool():
           # coordinates -1 and -2 together (CPython hash(-1) == hash(-2)): a unit cube between z=-2 and z=-1 and its two face planes
           X.Ph(tuple(product((0, 1), (0, 1), (-2, -1)))), X.Pl((0, 0, -1), (0, 0, 1)), X.Pl((0, 0, -2), (0, 0, 1)),
           X.Pg(((-1, 0, -1), (2, 0, -1), (2, 2, -1), (-1, 2, -1)))]
+    # a box with one point inside and one outside whose coordinates differ only by -1 against -2 (equal CPython hashes), and
+    # the segment between them: an answer remembered for one point must not serve the other (w6_C12_3)
+    P += [X.Ph(tuple(product((F(-3, 2), 1), (0, 1), (0, 1)))), X.Pt((-1, H, H)), X.Pt((-2, H, H)), X.Sg((-1, H, H), (-2, H, H))]
     # half-lines in the plane z=0 whose carrier line x+y=0 touches the polygons there in the single vertex (0,0,0): one pointing away
     # from it (disjoint from the polygons although its carrier is not), one pointing at it (w6_C12_2)
     P += [X.Hl((1, -1, 0), (1, -1, 0)), X.Hl((1, -1, 0), (-1, 1, 0))]
@@ -57,7 +60,7 @@ def pool():
 def quick_pool():
     P = pool()
     # every second object plus all bodies
-    return [o for i, o in enumerate(P) if i % 2 == 0 or o[0] in X.BODY or i >= len(P) - 2]
+    return [o for i, o in enumerate(P) if i % 2 == 0 or o[0] in X.BODY or i >= len(P) - 6]
 
 
 def vertex_viols(fam, a, b, la, lb, r, e, path):
